@@ -336,6 +336,14 @@ impl Prop for Finds {
             Which::SplitJoin => vec![("split", 2000, 20000), ("split after first letter", 200, 2000), ("join", 100, 1000), ("join with 1-letter first word", 3, 30)],
         }
     }
+    fn ratios(&self) -> Vec<(&'static str, &'static str, f64, f64)> {
+        match self.0 {
+            Which::Prefix => vec![("skipped_unstable", "prefix len 1", 0.0, 0.2)],
+            Which::Typo => vec![("skipped_unstable", "substitution", 0.0, 0.2)],
+            Which::Whole => vec![("skipped_unstable", "whole title", 0.0, 0.2)],
+            Which::SplitJoin => vec![("skipped_unstable", "split", 0.0, 0.2)],
+        }
+    }
     fn run(&self, cx: &mut Cx, stream: &str, idx: u64) {
         let mut done = BTreeSet::new();
         match stream {
